@@ -249,11 +249,14 @@ PROPS = {    "C01": {
             {"name": "C10.reset", "pkg": SCHED, "replay": "R1",
              "quick": {"entry": "VerifHarness_C10_reset4", "flags": ["-unwind", "24"], "bounds": {"N": 4, "recorded_status": "all 6 values", "retry/done counts": "0..2"}},
              "thorough": {"entry": "VerifHarness_C10_reset4", "flags": ["-unwind", "24"], "bounds": {"N": 4}}},
+            {"name": "C10.reset-order", "pkg": SCHED, "replay": "R1",
+             "quick": {"entry": "VerifHarness_C10_resetperm3", "flags": ["-unwind", "24"], "bounds": {"N": 3, "declaration_order": "every permutation of the steps (a dependant may be declared before its upstream step)", "recorded_status": "all 6 values"}},
+             "thorough": {"entry": "VerifHarness_C10_resetperm4", "flags": ["-unwind", "24"], "timeout_s": 3600, "bounds": {"N": 4, "declaration_order": "every permutation"}}},
             ag_ob("C10.retry", "VerifHarness_AG_retry", ["C10."], ["C10.newrun/history-is-opened-under-the-new-request-id", "C10.exec/unfinished-step-is-re-executed", "C10.exec/step-that-completed-is-not-re-executed"],
                   {"steps": "2 (chain)", "recorded_status": "all 6 values per step, reachable vectors", "continueOn.failure": "symbolic"}),
             param_ob("C10", ["C10."], ["C10.params/recorded-parameters-parse-back-to-the-same-values"]),
         ],
-        "assumptions": ["distinct step names", "recorded steps listed in a topological order (as the builder produces them is NOT assumed by the code; the harness builds deps j<i)"] + PARAM_ASSUME,
+        "assumptions": ["distinct step names", "C10.reset hands the recorded steps over in a topological order; C10.reset-order in every declaration order"] + PARAM_ASSUME,
         "outside_claim": COMMON_OUTSIDE + ["parameter strings with more than one parameter or values longer than 3 bytes; an unnamed value containing '=' is recorded as word=word and read back as a named parameter (same strings, one more environment variable): not distinguished by the oracle"],
     },
     "C11": {
@@ -363,7 +366,7 @@ PROPS = {    "C01": {
                        "bounds": {"socket": "no socket file | first run answers (status running/failed/canceled/finished) | peer hangs | stale socket file", "steps": 1, "handlers": "onExit"}}},
             ag_ob("C16.race", "VerifHarness_C16_race", ["C16."], ["C16.race/two-simultaneous-starts-never-both-execute-steps"], {"agents": 2, "steps": 1, "instant_of_second_start": "between the first run's probe and its bind (forced)"},
                   must_reach=[]),  # every path of this obligation ends in the listed finding F16
-            ag_ob("C16.window", "VerifHarness_C16_window", ["C16."], ["C16.window/second-start-is-refused-once-the-first-run-is-listening", "C16.window/first-run-is-not-disturbed"],
+            ag_ob("C16.window", "VerifHarness_C16_window", ["C16."], ["C16.window/second-start-is-refused-once-the-first-run-is-listening", "C16.window/first-run-is-not-disturbed", "C16.window/first-run-status-endpoint-keeps-answering-after-the-refusal"],
                   {"agents": 2, "steps": 1, "instant_of_second_start": "after the first run's socket is listening, before its steps start (forced); the probe is answered by the first run's real HandleHTTP"}),
         ],
         "assumptions": ["C16.race: two real agent.Run calls on one DAG file; run A is parked (channel in its history fake) after its socket probe and before its bind while run B starts and runs; unix-socket listener model: bind fails iff the path exists, unlink orphans the listener",
